@@ -13,7 +13,9 @@
 (* INTENDED design: the reader never blocks on the semaphore (a lowered      *)
 (* limit is recorded as permits OWED, paid back by closing streams), and a   *)
 (* sender that obtains the read lock re-checks its window before reading.    *)
-(* DEVIATIONS (what the code does): SettingsDownBlocks, FlowRereads.         *)
+(* DEVIATIONS (what the code does): SettingsDownBlocks, FlowRereads,         *)
+(* FlowWaitsOnlyAtZero (before 91a0bbb: a NEGATIVE window - INITIAL_WINDOW_SIZE *)
+(* lowered in mid-upload, RFC 9113 6.9.2 - was not waited for).              *)
 (***************************************************************************)
 EXTENDS Integers, Sequences, FiniteSets, TLC
 
@@ -23,6 +25,7 @@ CONSTANTS Req, Body,       \* Body[r]: units of request body to upload
           InitWin,         \* initial stream / connection window (units)
           MaxGrant,        \* how much window the server grants in total
           Resets,          \* how many streams the server may reset
+          Shrinks,         \* how many times the server may LOWER INITIAL_WINDOW_SIZE (by one unit)
           Deviations
 Dev(d) == d \in Deviations
 None == 0
@@ -39,11 +42,11 @@ VARIABLES
   swin, cwin,\* send windows as the client knows them
   todo,      \* [Req -> body units still to send]
   srvLimit,  \* the limit the server advertised last
-  nset, granted, nrst,
+  nset, granted, nrst, nshr,
   srvGot,    \* [Req -> body units the server has received]
   answered   \* [Req -> has the server sent its answer]
 
-vars == <<ph, permits, maxStreams, owed, readLock, blockedIn, net, evq, swin, cwin, todo, srvLimit, nset, granted, nrst, srvGot, answered>>
+vars == <<ph, permits, maxStreams, owed, readLock, blockedIn, net, evq, swin, cwin, todo, srvLimit, nset, granted, nrst, nshr, srvGot, answered>>
 
 OpenPh == {"open", "sending", "waitflow", "awaiting"}
 OpenReqs == {r \in Req : ph[r] \in OpenPh}
@@ -56,7 +59,7 @@ Init ==
   /\ net = <<>> /\ evq = [r \in Req |-> <<>>]
   /\ swin = [r \in Req |-> InitWin] /\ cwin = InitWin
   /\ todo = Body
-  /\ srvLimit = 1 /\ nset = 0 /\ granted = 0 /\ nrst = 0
+  /\ srvLimit = 1 /\ nset = 0 /\ granted = 0 /\ nrst = 0 /\ nshr = 0
   /\ srvGot = [r \in Req |-> 0] /\ answered = [r \in Req |-> FALSE]
 
 (* ---- the client ---- *)
@@ -64,7 +67,7 @@ SemAcquire(r) ==                       \* http2.py 127
   /\ ph[r] = "sem" /\ permits > 0
   /\ permits' = permits - 1
   /\ ph' = [ph EXCEPT ![r] = IF todo[r] > 0 THEN "sending" ELSE "awaiting"]     \* stream opened, headers sent
-  /\ UNCHANGED <<maxStreams, owed, readLock, blockedIn, net, evq, swin, cwin, todo, srvLimit, nset, granted, nrst, srvGot, answered>>
+  /\ UNCHANGED <<maxStreams, owed, readLock, blockedIn, net, evq, swin, cwin, todo, srvLimit, nset, granted, nrst, nshr, srvGot, answered>>
 
 Flow(r) == Min(swin[r], cwin)
 SendData(r) ==                         \* 261-272: a piece no larger than the window
@@ -74,29 +77,33 @@ SendData(r) ==                         \* 261-272: a piece no larger than the wi
      /\ swin' = [swin EXCEPT ![r] = @ - n] /\ cwin' = cwin - n
      /\ srvGot' = [srvGot EXCEPT ![r] = @ + n]
      /\ ph' = [ph EXCEPT ![r] = IF todo[r] = n THEN "awaiting" ELSE "sending"]
-  /\ UNCHANGED <<permits, maxStreams, owed, readLock, blockedIn, net, evq, srvLimit, nset, granted, nrst, answered>>
+  /\ UNCHANGED <<permits, maxStreams, owed, readLock, blockedIn, net, evq, srvLimit, nset, granted, nrst, nshr, answered>>
 
+(* the window is closed - or NEGATIVE, after INITIAL_WINDOW_SIZE was lowered - : go and read.
+   DEVIATION FlowWaitsOnlyAtZero: only an exactly-zero window is waited for; with a negative one the
+   code sliced the body with a negative size and kept "sending" (SpinNegative below) *)
+Closed(r) == IF Dev("FlowWaitsOnlyAtZero") THEN Flow(r) = 0 ELSE Flow(r) <= 0
 WaitFlow(r) ==                         \* 479-495: window closed -> go and read
-  /\ ph[r] = "sending" /\ todo[r] > 0 /\ Flow(r) = 0
+  /\ ph[r] = "sending" /\ todo[r] > 0 /\ Closed(r)
   /\ ph' = [ph EXCEPT ![r] = "waitflow"]
-  /\ UNCHANGED <<permits, maxStreams, owed, readLock, blockedIn, net, evq, swin, cwin, todo, srvLimit, nset, granted, nrst, srvGot, answered>>
+  /\ UNCHANGED <<permits, maxStreams, owed, readLock, blockedIn, net, evq, swin, cwin, todo, srvLimit, nset, granted, nrst, nshr, srvGot, answered>>
 
 NeedsRead(r) == \/ ph[r] = "awaiting" /\ evq[r] = <<>>
                 \/ ph[r] = "waitflow"
 TakeReadLock(r) ==                     \* 342
   /\ NeedsRead(r) /\ readLock = None
   /\ readLock' = r
-  /\ UNCHANGED <<ph, permits, maxStreams, owed, blockedIn, net, evq, swin, cwin, todo, srvLimit, nset, granted, nrst, srvGot, answered>>
+  /\ UNCHANGED <<ph, permits, maxStreams, owed, blockedIn, net, evq, swin, cwin, todo, srvLimit, nset, granted, nrst, nshr, srvGot, answered>>
 
 (* inside the lock: is there still a reason to read? (356; for a sender the intended design
    re-checks the window - DEVIATION FlowRereads: it reads again regardless) *)
-StillNeeds(r) == IF ph[r] = "waitflow" THEN (Flow(r) = 0 \/ Dev("FlowRereads")) ELSE evq[r] = <<>>
+StillNeeds(r) == IF ph[r] = "waitflow" THEN (Flow(r) <= 0 \/ Dev("FlowRereads")) ELSE evq[r] = <<>>
 
 ReleaseNoRead(r) ==
   /\ readLock = r /\ blockedIn = "none" /\ ~StillNeeds(r)
   /\ readLock' = None
   /\ ph' = [ph EXCEPT ![r] = IF @ = "waitflow" THEN "sending" ELSE @]
-  /\ UNCHANGED <<permits, maxStreams, owed, blockedIn, net, evq, swin, cwin, todo, srvLimit, nset, granted, nrst, srvGot, answered>>
+  /\ UNCHANGED <<permits, maxStreams, owed, blockedIn, net, evq, swin, cwin, todo, srvLimit, nset, granted, nrst, nshr, srvGot, answered>>
 
 (* one network read: everything the server has sent is dispatched (358-379) *)
 RECURSIVE Dispatch(_, _)
@@ -115,6 +122,8 @@ Dispatch(fs, S) ==
                          [S EXCEPT !.ms = f.n + (down - take), !.permits = 0, !.stuck = TRUE, !.rest = fs]
                     ELSE Dispatch(Tail(fs), [S EXCEPT !.ms = f.n, !.permits = @ - take, !.owed = @ + (down - take)])
            ELSE Dispatch(Tail(fs), S)
+      [] f.t = "shrink" ->   \* INITIAL_WINDOW_SIZE lowered: every stream window moves by the difference
+           Dispatch(Tail(fs), [S EXCEPT !.swin = [x \in Req |-> IF ph[x] \in OpenPh \cup {"sem"} THEN S.swin[x] - f.n ELSE S.swin[x]]])
       [] f.t = "win" ->
            IF f.r = None THEN Dispatch(Tail(fs), [S EXCEPT !.cwin = @ + f.n])
                          ELSE Dispatch(Tail(fs), [S EXCEPT !.swin[f.r] = @ + f.n])
@@ -131,57 +140,64 @@ NetRead(r) ==
           THEN blockedIn' = "sem" /\ net' = S.rest /\ UNCHANGED <<readLock, ph>>
           ELSE /\ blockedIn' = "none" /\ net' = <<>> /\ readLock' = None
                /\ ph' = [ph EXCEPT ![r] = IF @ = "waitflow" THEN "sending" ELSE @]
-  /\ UNCHANGED <<todo, srvLimit, nset, granted, nrst, srvGot, answered>>
+  /\ UNCHANGED <<todo, srvLimit, nset, granted, nrst, nshr, srvGot, answered>>
 
 (* DEVIATION SettingsDownBlocks: blocked in the acquire, it goes on once a permit is released *)
 Unstick(r) ==
   /\ readLock = r /\ blockedIn = "sem" /\ permits > 0
   /\ permits' = permits - 1 /\ maxStreams' = maxStreams - 1
   /\ blockedIn' = "none"
-  /\ UNCHANGED <<ph, owed, readLock, net, evq, swin, cwin, todo, srvLimit, nset, granted, nrst, srvGot, answered>>
+  /\ UNCHANGED <<ph, owed, readLock, net, evq, swin, cwin, todo, srvLimit, nset, granted, nrst, nshr, srvGot, answered>>
 
 Consume(r) ==                          \* 320-333: the response (or the reset) is taken off the queue
   /\ ph[r] = "awaiting" /\ evq[r] # <<>>
   /\ ph' = [ph EXCEPT ![r] = IF Head(evq[r]) = "answer" THEN "gotit" ELSE "reset"]
   /\ evq' = [evq EXCEPT ![r] = Tail(@)]
-  /\ UNCHANGED <<permits, maxStreams, owed, readLock, blockedIn, net, swin, cwin, todo, srvLimit, nset, granted, nrst, srvGot, answered>>
+  /\ UNCHANGED <<permits, maxStreams, owed, readLock, blockedIn, net, swin, cwin, todo, srvLimit, nset, granted, nrst, nshr, srvGot, answered>>
 
 ResponseClosed(r) ==                   \* 400-402: the slot comes back - or pays a debt
   /\ ph[r] \in {"gotit", "reset"}
   /\ IF owed > 0 THEN owed' = owed - 1 /\ UNCHANGED permits ELSE permits' = permits + 1 /\ UNCHANGED owed
   /\ ph' = [ph EXCEPT ![r] = IF @ = "gotit" THEN "done" ELSE "failed"]
-  /\ UNCHANGED <<maxStreams, readLock, blockedIn, net, evq, swin, cwin, todo, srvLimit, nset, granted, nrst, srvGot, answered>>
+  /\ UNCHANGED <<maxStreams, readLock, blockedIn, net, evq, swin, cwin, todo, srvLimit, nset, granted, nrst, nshr, srvGot, answered>>
 
 (* ---- the server ---- *)
 SrvSettings(n) ==
   /\ nset < MaxSettings /\ n \in Limits /\ n # srvLimit
   /\ net' = Append(net, [t |-> "settings", n |-> n]) /\ srvLimit' = n /\ nset' = nset + 1
-  /\ UNCHANGED <<ph, permits, maxStreams, owed, readLock, blockedIn, evq, swin, cwin, todo, granted, nrst, srvGot, answered>>
+  /\ UNCHANGED <<ph, permits, maxStreams, owed, readLock, blockedIn, evq, swin, cwin, todo, granted, nrst, nshr, srvGot, answered>>
 
 SrvAnswer(r) ==                        \* once the request is complete
   /\ ph[r] = "awaiting" /\ ~answered[r]
   /\ net' = Append(net, [t |-> "answer", r |-> r]) /\ answered' = [answered EXCEPT ![r] = TRUE]
-  /\ UNCHANGED <<ph, permits, maxStreams, owed, readLock, blockedIn, evq, swin, cwin, todo, srvLimit, nset, granted, nrst, srvGot>>
+  /\ UNCHANGED <<ph, permits, maxStreams, owed, readLock, blockedIn, evq, swin, cwin, todo, srvLimit, nset, granted, nrst, nshr, srvGot>>
 
 SrvReset(r) ==
   /\ ph[r] \in OpenPh /\ ~answered[r] /\ nrst < Resets
   /\ net' = Append(net, [t |-> "reset", r |-> r]) /\ answered' = [answered EXCEPT ![r] = TRUE] /\ nrst' = nrst + 1
-  /\ UNCHANGED <<ph, permits, maxStreams, owed, readLock, blockedIn, evq, swin, cwin, todo, srvLimit, nset, granted, srvGot>>
+  /\ UNCHANGED <<ph, permits, maxStreams, owed, readLock, blockedIn, evq, swin, cwin, todo, srvLimit, nset, granted, nshr, srvGot>>
 
 (* the server grants window where an upload is (or will be) starved: to a stream / the connection
    whose window - counting the grants still in flight - is exhausted *)
 InFlight(x) == Cardinality({j \in DOMAIN net : net[j].t = "win" /\ net[j].r = x})
+PendingShrink == Cardinality({j \in DOMAIN net : net[j].t = "shrink"})
 Uploading == {r \in Req : ph[r] \in {"sending", "waitflow"} /\ todo[r] > 0}
 SrvWindow(r) ==                        \* r = None: the connection window
   /\ granted < MaxGrant
-  /\ IF r = None THEN Uploading # {} /\ cwin + InFlight(None) = 0
-                  ELSE r \in Uploading /\ swin[r] + InFlight(r) = 0
+  /\ IF r = None THEN Uploading # {} /\ cwin + InFlight(None) <= 0
+                  ELSE r \in Uploading /\ swin[r] + InFlight(r) - PendingShrink <= 0
   /\ net' = Append(net, [t |-> "win", r |-> r, n |-> 1]) /\ granted' = granted + 1
-  /\ UNCHANGED <<ph, permits, maxStreams, owed, readLock, blockedIn, evq, swin, cwin, todo, srvLimit, nset, nrst, srvGot, answered>>
+  /\ UNCHANGED <<ph, permits, maxStreams, owed, readLock, blockedIn, evq, swin, cwin, todo, srvLimit, nset, nrst, nshr, srvGot, answered>>
+
+(* the server lowers INITIAL_WINDOW_SIZE by one unit while an upload is going on *)
+SrvShrink ==
+  /\ nshr < Shrinks /\ Uploading # {}
+  /\ net' = Append(net, [t |-> "shrink", n |-> 1]) /\ nshr' = nshr + 1
+  /\ UNCHANGED <<ph, permits, maxStreams, owed, readLock, blockedIn, evq, swin, cwin, todo, srvLimit, nset, granted, nrst, srvGot, answered>>
 
 Client(r) == SemAcquire(r) \/ SendData(r) \/ WaitFlow(r) \/ TakeReadLock(r) \/ ReleaseNoRead(r) \/ NetRead(r)
              \/ Unstick(r) \/ Consume(r) \/ ResponseClosed(r)
-Server == (\E n \in Limits : SrvSettings(n)) \/ (\E r \in Req : SrvAnswer(r) \/ SrvReset(r)) \/ (\E r \in Req \cup {None} : SrvWindow(r))
+Server == SrvShrink \/ (\E n \in Limits : SrvSettings(n)) \/ (\E r \in Req : SrvAnswer(r) \/ SrvReset(r)) \/ (\E r \in Req \cup {None} : SrvWindow(r))
 AllDone == \A r \in Req : ph[r] \in {"done", "failed"}
 Terminated == AllDone /\ UNCHANGED vars
 Next == (\E r \in Req : Client(r)) \/ Server \/ Terminated
@@ -196,7 +212,9 @@ FairSpec == Spec /\ (\A r \in Req : WF_vars(Client(r)) /\ WF_vars(SrvAnswer(r)))
 TypeOK == permits >= 0 /\ owed >= 0 /\ maxStreams >= 0
 PermitAccounting == permits + Cardinality(OpenReqs \cup {r \in Req : ph[r] \in {"gotit", "reset"}}) = maxStreams + owed
 StreamCap == [][\A r \in Req : (ph[r] = "sem" /\ ph'[r] # "sem") => Cardinality(OpenReqs) < maxStreams + owed]_vars
-FlowSafe == \A r \in Req : swin[r] >= 0 /\ cwin >= 0
+\* (a stream window may be NEGATIVE after a shrink; what must never happen is DATA beyond it)
+FlowSafe == cwin >= 0 /\ (Shrinks = 0 => \A r \in Req : swin[r] >= 0)
+FlowRespected == [][\A r \in Req : srvGot'[r] > srvGot[r] => (srvGot'[r] - srvGot[r]) <= Min(swin[r], cwin)]_vars
 UploadExact == \A r \in Req : srvGot[r] + todo[r] = Body[r]
 NoWedge == <>[]AllDone
 (* a blocked reader holding the lock while answers wait in `net` is what "wedged" looks like *)
